@@ -58,3 +58,29 @@ Theorem C10_parameter_binding_is_local : forall src num toks i fn p vs v vs',
   var_store vs (ident_str (mangle fn p)) v = Ok vs' -> var_fetch vs' (ident_str i) = var_fetch vs (ident_str i).
 Proof. exact parameter_binding_is_local. Qed.
 Print Assumptions C10_parameter_binding_is_local.
+
+(* ---- the call itself (Proofs/FnCall.v, FnBody.v) ---- *)
+From BL Require Import Lang.Ast Mach.Compile Proofs.ExprCompile Proofs.FnBody.
+
+(* entering: the return address goes under the arguments, the first argument is on top, control is at the function's code *)
+Theorem C10_call_enters : forall name r r1 args arity addr, pop_vec r = (r1, Ok args) ->
+  alist_get name (r_fns r1) = Some (arity, addr) -> arity = lenN args -> r_slen r1 + 1 + lenN args <= MAX_POOL ->
+  exists r2, do_fn name r = (r2, Ok tt)
+    /\ r_stack r2 = args ++ VRet (r_pc r1) :: r_stack r1 /\ r_pc r2 = addr
+    /\ r_vars r2 = r_vars r1 /\ r_fns r2 = r_fns r1 /\ r_prog r2 = r_prog r1 /\ r_state r2 = r_state r1.
+Proof. exact call_enters. Qed.
+Print Assumptions C10_call_enters.
+
+(* the body: parameter stores, the expression's code and RETURN leave the body's value -- evaluated with the parameters bound to
+   the arguments and every other variable as it is at call time -- on the caller's stack and return behind the call; whatever
+   the caller had on the stack below (loop frames, return addresses, temporaries of the calling expression) is untouched *)
+Theorem C10_function_body_runs : forall O h names body r args a rest vs' v,
+  pure body = true ->
+  r_stack r = args ++ VRet a :: rest -> r_slen r = lenN (args ++ VRet a :: rest) ->
+  bind_params (r_vars r) names args = Ok vs' ->
+  eval_pure O vs' body = Ok v -> is_assignable v = true ->
+  lenN rest + 1 + lenN (postfix body) <= MAX_POOL ->
+  exists r', run_ops O h (map OpPop names ++ postfix body ++ [OpReturn]) r = (r', Ok tt)
+    /\ r_stack r' = v :: rest /\ r_pc r' = a /\ r_vars r' = vs'.
+Proof. exact function_body_runs. Qed.
+Print Assumptions C10_function_body_runs.
